@@ -119,6 +119,11 @@ def run_planck(W, cfg):
     want = conv * TO_M[wu]            # per metre -> per waveunit
     W.ob_close('radiance = textbook formula in the requested units (relative)', rad / want, 1, 1e-12)
     W.ob_close('exitance = pi x radiance (relative)', exi / (rad * W.pi()), 1, 1e-12)
+    # wavelengths handed over as a plain Python list (documented as array_like)
+    rl = R.planck_radiance([lam, lam * 2], T, waveunit=wu, valueunit=vu)
+    el = R.planck_exitance([lam, lam * 2], T, waveunit=wu, valueunit=vu)
+    W.ob_close('radiance of a list of wavelengths [0]', rl[0] / rad, 1, 1e-12)
+    W.ob_close('exitance of a list of wavelengths [0]', el[0] / exi, 1, 1e-12)
     bb = R.Blackbody(W.array([lam, lam * 2]), T, waveunit=wu, valueunit=vu)
     W.ob_close('Blackbody value is the radiance', bb.value[0] / rad, 1, 1e-12)
 
